@@ -386,6 +386,21 @@ func c06Specials(c *Case) {
 		{"x + y is number", &IsExpr{X: Bin("+", V("x"), V("y")), T: "number"}},
 		{"p && x is string", Bin("&&", V("p"), &IsExpr{X: V("x"), T: "string"})},
 	}
+	// forms whose text is whatever the renderer gives for the tree (the tree is the statement of how they group)
+	for _, t := range []Expr{
+		Bin("*", V("x"), Meth(N("2.5"), "round")), Bin("/", V("w"), Meth(N("2.5"), "ceil")), Bin("%", V("z"), Meth(N("2.5"), "floor")), Bin("-", V("x"), Meth(N("2.5"), "round")),
+		Bin("*", V("x"), Meth(N("7"), "floor")), Bin("+", Bin("*", V("x"), Meth(N("2.5"), "round")), N("1")), Bin("*", Meth(N("2.5"), "round"), Meth(N("3.5"), "floor")),
+		Bin("*", V("x"), Mem(V("o"), "k")), Bin("/", V("x"), Idx(V("a"), N("1"))), Bin("%", V("z"), CallE(V("f"), N("2"))), Bin("*", V("x"), Meth(S("abc"), "length")), Bin("*", N("2"), Meth(Arr(N("1"), N("2")), "length")),
+		Bin("<", V("x"), Meth(N("2.5"), "round")), Bin("==", V("x"), Meth(N("4.4"), "floor")), Bin("&&", V("p"), Meth(N("0.4"), "round")),
+		&IsExpr{X: &Unary{Op: "!", X: V("x")}, T: "string"}, &IsExpr{X: &Unary{Op: "!", X: V("x")}, T: "bool"}, &IsExpr{X: &Unary{Op: "!", X: V("s")}, T: "string"}, &IsExpr{X: &Unary{Op: "!", X: V("p")}, T: "number"},
+		&IsExpr{X: Bin("+", N("2"), &Unary{Op: "!", X: V("x")}), T: "string"}, &IsExpr{X: &Unary{Op: "-", X: V("x")}, T: "number"}, &IsExpr{X: &Unary{Op: "-", X: V("s")}, T: "string"},
+		Bin("==", &IsExpr{X: &Unary{Op: "!", X: V("x")}, T: "bool"}, V("p")), Bin("&&", &IsExpr{X: &Unary{Op: "!", X: V("s")}, T: "bool"}, V("q")),
+	} {
+		list = append(list, struct {
+			text string
+			tree Expr
+		}{CanonExpr(t), t})
+	}
 	for _, s := range list {
 		stm := append([]Stmt{}, c06Setup...)
 		stm = append(stm,
